@@ -130,6 +130,8 @@ def shard_accessor(spec, R):
         if R.out_of_time():
             break
         ny, nx, nt = int(rng.integers(1, 4)), int(rng.integers(1, 4)), int(rng.choice([4, 5, 9, 24, 60]))
+        if it % 2:
+            nx = ny = max(2, ny)  # square grids: a positional mix-up of y and x would not even raise
         nodata = float(rng.choice([-3000, 0, 32767]))
         cube = np.empty((ny, nx, nt))
         for a in range(ny):
@@ -156,6 +158,17 @@ def shard_accessor(spec, R):
             if mode == 2:
                 sgv[rng.random((ny, nx)) < 0.4] = -np.inf
             sg = xr.DataArray(sgv, dims=["y", "x"], coords={"y": np.arange(ny), "x": np.arange(nx)})
+            # the sgrid is matched to pixels by dimension *name*: hand it over in another dim order, or one-dimensional
+            sgk = (it // 3) % 4
+            if sgk == 1:
+                sg = sg.transpose("x", "y")
+                R.count("accessor_sgrid_transposed")
+            elif sgk == 2:
+                sgv = np.repeat(sgv[:, :1], nx, axis=1)
+                sg = xr.DataArray(sgv[:, 0], dims=["y"], coords={"y": np.arange(ny)})
+                R.count("accessor_sgrid_1d")
+            elif sgk == 3:
+                sg = sg.drop_vars(["y", "x"])
             res = da.hdc.whit.whits(nodata=nodata, sg=sg, p=p)
             lam = 10.0 ** sgv
         R.evaluation()
